@@ -20,3 +20,4 @@ Fixpoint mclose (tol : Q) (a b : list (list Q)) : bool :=
   | _, _ => false
   end.
 Definition norm_ok (tol : Q) (obs impl : list (list Q)) : bool := mclose tol (norm_irr obs) impl.
+Definition norm_dense_ok (tol : Q) (points impl : list Q) : bool := vclose tol (norm_dense points) impl.
